@@ -180,6 +180,35 @@ func checkDepsPath(path []*ast.Identifier, deps packageDeclsDeps) []*ast.Identif
 	return nil
 }
 
+// initDeps returns the dependencies of the initialization of the variables
+// declared by v: the identifiers referenced by its expressions where every
+// function is replaced, transitively, by the identifiers referenced by its
+// body. A variable is initialized after the variables its initialization
+// depends on, also if it refers to them through a function.
+func initDeps(v *ast.Var, deps packageDeclsDeps, funcs []*ast.Func) []*ast.Identifier {
+	var result []*ast.Identifier
+	visited := map[string]bool{}
+	var visit func(ds []*ast.Identifier)
+	visit = func(ds []*ast.Identifier) {
+	depsLoop:
+		for _, dep := range ds {
+			if visited[dep.Name] {
+				continue
+			}
+			visited[dep.Name] = true
+			for _, f := range funcs {
+				if f.Ident.Name == dep.Name {
+					visit(depsOf(dep.Name, deps))
+					continue depsLoop
+				}
+			}
+			result = append(result, dep)
+		}
+	}
+	visit(deps[v.Lhs[0]])
+	return result
+}
+
 // checkDepsLoop returns a path of dependencies that starts from start and
 // returns to it, or nil if there is no such path. A loop that is reachable
 // from start but does not include it, as a recursive function called in the
@@ -450,7 +479,7 @@ varsLoop:
 		// Searches for next variable with resolved deps.
 		for i, v := range vars {
 			depsOk := true
-			for _, dep := range deps[v.Lhs[0]] {
+			for _, dep := range initDeps(v, deps, funcs) {
 				found := false
 			resolvedLoop:
 				for _, resolvedV := range sortedVars {
